@@ -38,3 +38,18 @@ Proof.
   - subst. split; lia.
   - pose proof (r8_lt U b a HU H). split; lia.
 Qed.
+
+(* Since repair 9bb39e5 the implementation rounds the DIFFERENCE of two times: round(a - b, 8) >= 0.  On a grid of
+   fewer than 10^8 units per beat this, too, is the exact comparison. *)
+Theorem r8_diff_compare U a b : 0 < U < 10 ^ 8 ->
+  (0 <=? r8 U (a - b)) = (b <=? a) /\ (r8 U (a - b) <=? 0) = (a <=? b).
+Proof.
+  intros HU. unfold r8.
+  pose proof (rhe_bounds ((a - b) * 10 ^ 8) U ltac:(lia)) as B.
+  set (x := rhe ((a - b) * 10 ^ 8) U) in *.
+  assert (H : 10 ^ 8 = 100000000) by reflexivity. rewrite H in *.
+  destruct (Z.lt_trichotomy a b) as [L|[E|G]].
+  - assert (x < 0) by nia. split; lia.
+  - subst. replace (b - b) with 0 in B by lia. assert (x = 0) by nia. split; lia.
+  - assert (0 < x) by nia. split; lia.
+Qed.
